@@ -52,7 +52,7 @@ def histOn (A : Alg) (d0 : Option (Digest A)) (o : Op) : String :=
 
 /-- `hist alg=b|s path=… ctor=new|new512|new384|new256|new128|reg512|reg384|reg256 (reg* = crypto.Hash.New(), unkeyed) size=N key=HEX init=HEX|- ops=w5,s,r,z,… data=HEX` (`z` = Size().BlockSize())
     `sum alg=b|s size=N data=HEX` -/
-def handle (line : String) : String :=
+def handle0 (line : String) : String :=
   let o := parseOp line
   if o.cmd == "hist" then
     match o.get? "alg", o.get? "ctor", o.nat? "size", o.hex? "key" with
@@ -82,5 +82,11 @@ def handle (line : String) : String :=
     | some "s", some 32, some data => toHex (checkSum S 32 data)
     | _, _, _ => "bad-op"
   else "bad-op"
+
+/-- the harness appends ` mut=…` (caller-memory report of hx.Arena: inputs unmodified, nothing written outside
+    the permitted regions, nothing retained); the model is a pure function of contents, so it answers `mut=-` -/
+def handle (line : String) : String :=
+  let r := handle0 line
+  if r == "bad-op" then r else r ++ " mut=-"
 
 end XC.C05
